@@ -11,7 +11,9 @@ CONFIG = {
     "assumptions": [
         "the debuggee is deterministic, does not read its own text and contains no int3 of its own on the executed path",
         "breakpoints are placed at instruction starts (the generator only uses addresses of the reference trace)",
-        "no user breakpoint at the ELF entry point (the code replaces its internal entry breakpoint there and never reports it; excluded by a hypothesis of the theorem)",
+        "no user breakpoint at the ELF entry point (the code replaces its internal entry breakpoint there and never reports it; excluded by the hypothesis NoBreakAtEntry of the theorem)",
+        "no `remove` by address at the ELF entry point (remove_by_addr ignores the kind: it answers ok and deletes the internal entry breakpoint; hypothesis NoRemoveAtEntry)",
+        "the native trace restricted to the executable starts at the ELF entry address (hypothesis of the theorem; true of every reference trace used)",
     ],
     "uncovered": ["line/function breakpoints enter through the address sets C04 resolves", "toolchains other than 1.89 and non-PIE (thorough tier / C18)"],
 }
